@@ -27,9 +27,11 @@ def run(ctx):
     WIDE = ["0", "3", "7", "10", "24", "31", "45", "60", "100", "120", "365", "1000", "1900", "1999", "2000", "2015", "2021", "2099", "07", "12345"]
     if ctx.quick():
         counts = ["1", "2", "11"] + rng.sample(WIDE, 3) + [rng.choice(["1999", "2015", "2021", "1900"])]
+        # decimal counts, short and long fractions, either separator
+        counts += [rng.choice(["1.5", "2,5", "0.5", "10.25"]), rng.choice(["0.125", "2,375", "1.0625", "3.141", "12.0005"])]
         bases = [[2021, 3, 31, 10, 30, 17, 0]]
     else:
-        counts = ["1", "2", "11", "1.5", "2,5"] + WIDE
+        counts = ["1", "2", "11", "1.5", "2,5", "0.5", "10.25", "0.125", "2,375", "1.0625", "12.0005"] + WIDE
         bases = [[2021, 6, 15, 12, 0, 0, 0], [2021, 3, 31, 10, 30, 17, 0], [2020, 2, 29, 23, 59, 59, 0]]
     reqs = []
     for L in langs:
@@ -77,7 +79,8 @@ def run(ctx):
         "states": gen, "transitions": gen, "traces_validated_against_impl": len(records) - sp, "failing_locale_phrase_pairs": len(failing),
         "samples": [{"locale": r["target"], "phrase": r["phrase"], "canon": r["canon"]["text"], "observed": u["out"], "english": u["en_out"]} for _, r, u in index[:: max(1, len(index) // 6)]][:6],
     }
-    return core.finish(ctx, LEVEL, cov, findings_desc={f["id"]: "" for f in findings}, assumptions=[
+    return core.finish(ctx, LEVEL, cov, findings_desc={f["id"]: "relative %s %r of %s (listed under %r) does not parse like its English canonical expression" % (
+        f["signature"].get("kind", "phrase"), f["signature"]["phrase"], f["signature"]["locale"], f["signature"].get("listed_under", "?")) for f in findings}, assumptions=[
         "counted patterns are instantiated only when they are 'literal text + one number group' (optional letters dropped, \\s* as nothing, \\s+ as one space)",
         "domain: the phrase is listed under exactly one key of the vocabulary; a pattern listed under several keys is outside",
         "the canonical key is evaluated by Freshness.tla (bound to the code by C04) and by the real English parse"])
